@@ -54,6 +54,10 @@ CHECKS = {
    text="~640 (quick) downstream and backend-side hostile inputs by class (length fields, type bytes, truncation at every offset, PRNG mutations, nesting bombs to 6e6 levels, nested maximum-length arrays, malformed MOVED/ASK/CLUSTERDOWN, CLUSTER NODES bodies, SCAN replies, for each of READONLY / CLUSTER NODES / ASKING / SCAN / plain): the proxy must stay alive, keep answering a canary through a healthy node, and stay within a peak-RSS bound derived from input size and declared limits; complete invalid requests must get an error or a close.",
    note="Trusted: input grammar/class list in cmd/vcheck/c11.go; RSS bound formula (64 MiB + 64 x input + declared bulk + 64 B x declared array length). Each input is written to run/C11/case-current.bin before it is sent; reach counters require every request class to have been served hostile bytes.",
    ref="DESIGN.md section 4 C11"),
+ "C02": dict(level="fault_enumeration", technique="forced-ordering fault scripts through verif pause points (hook rendezvous: hold the request, inject the fault, release) x fault kind x request class; full-queue script; PRNG fault stress with probabilistic delays; progress-relative deadline + stuck detector (two goroutine dumps) + child exit status",
+   text="{5 pause points} x {backend reset, close, host removed, hosts replaced, client closes} x {simple, MGET child, ASK-redirected}: the held request must still be answered after release (lost = unanswered after 3 s while fresh canaries through the same backends succeed and two goroutine dumps show a session writer in rawRequest.Wait); > 1024 outstanding requests against a node that stopped reading and then dies are all answered; random fault stress on plain and -race builds must leave no connection with an unanswered request and must not kill the process (double completion = close of closed channel).",
+   note="Trusted: pause-point placement (between critical sections only), the canary/stuck-detector verdict. Orderings not in the script list are only sampled by the stress engine.",
+   ref="DESIGN.md section 4 C02"),
 }
 NOT_BUILT = "check not built yet in this session (design in DESIGN.md section 4)"
 
